@@ -39,3 +39,20 @@ def fl(x):
     if isinstance(x, Fraction):
         return float(x)
     return x
+
+
+# ---- scaffolding of PseudoNetCDF file objects -------------------------------------
+
+FILES = 'core/_files.py'
+DIMS = 'core/_dimensions.py'
+
+
+def dim_obj(I, name, length, unlimited=False):
+    return self_obj(I, DIMS, 'PseudoNetCDFDimension', dict(_len=length, _unlimited=unlimited, _name=name), tag='dim:' + name)
+
+
+def pnc_file(I, variables=None, dimensions=None, attrs=None, relpath=FILES, clsname='PseudoNetCDFFile'):
+    a = dict(variables=dict(variables or {}), dimensions=dict(dimensions or {}),
+             _ncattrs=tuple((attrs or {}).keys()), _operator_exclude_vars=())
+    a.update(attrs or {})
+    return self_obj(I, relpath, clsname, a)
